@@ -30,3 +30,22 @@ Theorem C07_inplace_sfm_refuted :
   ~ In (0, 0) (visible (run fs0 (firstn 11 (ops_of_inplace h))) (nsegs h)).
 Proof. exact crash_safe_inplace_refuted. Qed.
 Print Assumptions C07_inplace_sfm_refuted.
+
+(* ---- "later ingestion does not overwrite recovered data": the per-stream suffix file.
+   FULL STATEMENT: after a crash that follows ANY number k of the system calls of ANY number n of segment
+   allocations (suffix handed out, next value persisted through tmp + rename, segment directory created), the
+   number the restarted writer reads from the file is above every segment directory that exists — it never
+   writes into a recovered segment.  Refuted for an in-place rewrite of the file (the file is empty between
+   truncation and write, an empty file reads as 0). ---- *)
+From SigM Require Import SuffixProto.
+From SigP Require Import SuffixProtoProofs.
+Theorem C07_suffix_never_reused_after_crash : forall n k,
+  fresh (srun sst0 (firstn k (allocs alloc_ops n))) = true.
+Proof. exact suffix_never_reused. Qed.
+Print Assumptions C07_suffix_never_reused_after_crash.
+Theorem C07_suffix_in_place_refuted :
+  fresh (srun sst0 (firstn 4 (allocs alloc_ops_inplace 2))) = false /\
+  next_suffix (srun sst0 (firstn 4 (allocs alloc_ops_inplace 2))) = 0 /\
+  In 0 (dirs (srun sst0 (firstn 4 (allocs alloc_ops_inplace 2)))).
+Proof. exact suffix_in_place_refuted. Qed.
+Print Assumptions C07_suffix_in_place_refuted.
